@@ -128,6 +128,22 @@ def run(ctx):
             mode = "strict" if r < 0.35 else (("boom", rng.randint(0, 6)) if r < 0.7 else "ok")
             h.append((mode, c))
         run_history(ctx, tb, h, rng.choice(calls) if rng.random() < 0.7 else ("parse", gen.soup(rng, maxparts=8), {}), "random-history")
+    # restarts from inside nested handlers: a late <meta charset> (after the 1024-byte prescan window) met in every kind of
+    # context makes changeEncoding raise the internal re-parse exception while the handlers above it are half-way through
+    pad = b"<!--" + b"x" * 1100 + b"-->"
+    ctxs = [b"<table>%s<tr><td>\xb1", b"<table><tr>%s<td>a", b"<table><tr><td>%s", b"<select>%s<option>o", b"<table><caption>%s",
+            b"<p><b>%s", b"<svg><foreignObject>%s", b"<table><tbody>%s", b"<frameset>%s", b"<head>%s", b"<table><td><select>%s",
+            b"<template>%s", b"<table><colgroup>%s", b"<ruby><rt>%s", b"<ul><li><table>%s"]
+    metas = [b"<meta charset=koi8-r>", b"<meta http-equiv=content-type content='text/html; charset=iso-8859-2'>", b"<meta charset=utf-8>"]
+    finals = [c for c in calls if c[0] == "parse"][:10] + [("parse", "<p>intro<table><tr><td>cell</table>", {})]
+    k = 0
+    for tb in ("etree", "dom"):
+        for c_ in ctxs:
+            for m_ in metas:
+                k += 1
+                doc = b"<!DOCTYPE html>" + pad + (c_ % m_)
+                run_history(ctx, tb, [("ok", ("parse", doc, {}))], finals[k % len(finals)], "restart-inside-handler")
+                run_history(ctx, tb, [("ok", ("parse", doc, {}))], ("parse", doc, {}), "restart-inside-handler")
     # entity-reference heavy histories (the named-reference trie is a process-wide object)
     letters = "lgnaco"
     def entdoc():
